@@ -194,3 +194,46 @@ def t_ignore_kwargs(E):
     cl = E.method(g, "__call__", E.real("a0"), scale=E.real("sc"))
     E.prove("C32.GenerativeFunction.call.builds_closure", isinstance(cl, Obj) and cl.cls.name == "GenerativeFunctionClosure"
             and len(cl.fields["args"]) == 1 and set(cl.fields["kwargs"]) == {"scale"})
+
+
+_SUGAR = ["vmap", "repeat", "scan", "accumulate", "reduce", "iterate", "iterate_final", "masked_iterate", "masked_iterate_final",
+          "mask", "or_else", "switch", "mix", "dimap", "map", "contramap"]
+
+
+@task("gfi.combinator_methods", props=["C11", "C12", "C13", "C14", "C15", "C16"],
+      functions=[G_ + "GenerativeFunction." + m for m in _SUGAR])
+def t_combinator_methods(E):
+    """the combinator METHODS of a generative function (g.vmap(in_axes=..), g.scan(n=..), g.mask(), g.switch(..), ...) build
+    exactly the combinator the module-level constructors build from g and the same parameters - so everything proved of
+    Vmap / Scan / MaskCombinator / Switch / Dimap and of the derived combinators holds for what the methods return"""
+    g, g2, g3 = G(E), G(E, "g2"), G(E, "g3")
+    n, ax, f, h = E.int("n", conc=True), E.opaque("in_axes"), E.opaque("f"), E.opaque("h")
+    v = E.method(g, "vmap", in_axes=ax)
+    E.prove("C11.GenerativeFunction.vmap.is_the_Vmap_of_self_with_the_given_axes",
+            isinstance(v, Obj) and v.cls.name == "Vmap" and E.And(E.eq(v.fields["gen_fn"], g), E.eq(v.fields["in_axes"], ax)))
+    s = E.method(g, "scan", n=n)
+    E.prove("C12.GenerativeFunction.scan.is_the_Scan_of_self_with_the_given_length",
+            isinstance(s, Obj) and s.cls.name == "Scan" and E.And(E.eq(s.fields["kernel_gen_fn"], g), E.eq(s.fields["length"], n)))
+    m = E.method(g, "mask")
+    E.prove("C14.GenerativeFunction.mask.is_the_MaskCombinator_of_self",
+            isinstance(m, Obj) and m.cls.name == "MaskCombinator" and E.eq(m.fields["gen_fn"], g))
+    sw = E.method(g, "switch", g2, g3)
+    E.prove("C13.GenerativeFunction.switch.branches_are_self_then_the_others_in_order",
+            E.eq(sw, E.call(COMB + ".switch:switch", g, g2, g3)) and isinstance(sw, Obj) and sw.cls.name == "Switch"
+            and E.eq(tuple(sw.fields["branches"]), (g, g2, g3)))
+    for pid, name, mod, kw in (("C11", "repeat", ".repeat:repeat", {"n": n}), ("C12", "accumulate", ".scan:accumulate", {}),
+                               ("C12", "reduce", ".scan:reduce", {}), ("C12", "iterate", ".scan:iterate", {"n": n}),
+                               ("C12", "iterate_final", ".scan:iterate_final", {"n": n}),
+                               ("C16", "masked_iterate", ".scan:masked_iterate", {}),
+                               ("C16", "masked_iterate_final", ".scan:masked_iterate_final", {}),
+                               ("C15", "dimap", ".dimap:dimap", {"pre": f, "post": h})):
+        a = E.method(g, name, **kw)
+        E.prove(f"{pid}.GenerativeFunction.{name}.is_the_module_level_combinator_of_self",
+                E.eq(a, E.I.call(E.call(COMB + mod, **kw), [g], {})))
+        E.refutable(f"gfi.combinator_methods.{name}", E.eq(a, E.I.call(E.call(COMB + mod, **kw), [g2], {})))
+    E.prove("C15.GenerativeFunction.map.is_the_module_level_combinator_of_self",
+            E.eq(E.method(g, "map", f), E.I.call(E.call(COMB + ".dimap:map", f=f), [g], {})))
+    E.prove("C15.GenerativeFunction.contramap.is_the_module_level_combinator_of_self",
+            E.eq(E.method(g, "contramap", f), E.I.call(E.call(COMB + ".dimap:contramap", f=f), [g], {})))
+    E.prove("C13.GenerativeFunction.or_else.if_branch_is_self", E.eq(E.method(g, "or_else", g2), E.call(COMB + ".or_else:or_else", g, g2)))
+    E.prove("C13.GenerativeFunction.mix.components_are_self_then_the_others", E.eq(E.method(g, "mix", g2), E.call(COMB + ".mixture:mix", g, g2)))
